@@ -98,6 +98,7 @@ struct Inner {
     calls: Vec<String>,
     pathcalls: Vec<String>,
     arms: Vec<String>,
+    returns: Vec<String>,
 }
 
 impl Inner {
@@ -222,6 +223,15 @@ impl<'ast> Visit<'ast> for Inner {
         }
         syn::visit::visit_stmt(self, s);
     }
+    fn visit_expr_return(&mut self, e: &'ast syn::ExprReturn) {
+        // `return E` (R-RETBIND binds E to a variable so that an exit proof has an anchor)
+        let ex = match &e.expr {
+            Some(x) => span_json(x.span()),
+            None => "null".to_string(),
+        };
+        self.returns.push(format!("{{\"span\":{},\"expr\":{}}}", span_json(e.span()), ex));
+        syn::visit::visit_expr_return(self, e);
+    }
     fn visit_expr_unsafe(&mut self, e: &'ast syn::ExprUnsafe) {
         self.unsafes.push(span_json(e.span()));
         syn::visit::visit_expr_unsafe(self, e);
@@ -343,7 +353,7 @@ impl Out {
             _ => "null".into(),
         };
         self.items.push(format!(
-            "{{\"kind\":\"fn\",\"key\":{},\"ctx\":{},\"span\":{},\"attrs\":{},\"vis\":{},\"sig\":{},\"body\":{},\"tail\":{},\"loops\":[{}],\"closures\":[{}],\"macros\":[{}],\"cfgs\":[{}],\"unsafes\":[{}],\"calls\":[{}],\"pathcalls\":[{}],\"arms\":[{}],\"nested\":[{}]}}",
+            "{{\"kind\":\"fn\",\"key\":{},\"ctx\":{},\"span\":{},\"attrs\":{},\"vis\":{},\"sig\":{},\"body\":{},\"tail\":{},\"loops\":[{}],\"closures\":[{}],\"macros\":[{}],\"cfgs\":[{}],\"unsafes\":[{}],\"calls\":[{}],\"pathcalls\":[{}],\"arms\":[{}],\"returns\":[{}],\"nested\":[{}]}}",
             js(&key),
             js(ctx),
             span_json(whole),
@@ -360,6 +370,7 @@ impl Out {
             inner.calls.join(","),
             inner.pathcalls.join(","),
             inner.arms.join(","),
+            inner.returns.join(","),
             inner.nested.join(",")
         ));
     }
